@@ -395,6 +395,9 @@ func findLeaky(c *core.Ctx) {
 	}
 }
 
+// deep (thorough tier): nested cases also with the natural fault
+var deep bool
+
 func gen(thorough bool, emit func(tcase)) {
 	for oi, oc := range all {
 		for s := range oc.Slots {
@@ -436,6 +439,9 @@ func gen(thorough bool, emit func(tcase)) {
 						ctxs = contexts
 					}
 					for _, ctx := range ctxs {
+						if deep && (ctx == "fn" || ctx == "try") {
+							emit(tcase{Outer: oi, OuterName: oc.Name, Slot: s, Inner: ii, InnerName: ic.Name, InnerSlot: is, Ctx: ctx, Fault: "nb"})
+						}
 						tc := tcase{Outer: oi, OuterName: oc.Name, Slot: s, Inner: ii, InnerName: ic.Name, InnerSlot: is, Ctx: ctx, Fault: "bm"}
 						if oc.Name == "embedded-str" && strings.ContainsAny(fill(ic, ic.Slots), "}\"") {
 							continue // `}` and quotes cannot be written inside #{...} (lexer restriction, not this property)
@@ -460,7 +466,8 @@ func run(c *core.Ctx) {
 	n := 0
 	var progCases []tcase
 	total := tk.Batched(c, 500, prelude, func(emit func(tcase)) {
-		gen(c.Thorough(), func(t tcase) {
+		deep = c.Thorough()
+		gen(true, func(t tcase) {
 			if t.Ctx == "prog" {
 				progCases = append(progCases, t)
 				return
